@@ -34,7 +34,7 @@ type projCase struct {
 		MethodCtx   bool      `json:"methodCtx"`
 		Published   bool      `json:"published"`
 		Deactivated bool      `json:"deactivated"`
-		Commitments bool      `json:"commitments"`
+		Commitments string    `json:"commitments"` // both | none | rcOnly (e.g. after a create with a bad delta) | ucOnly
 		Origin      bool      `json:"origin"`
 		VersionID   bool      `json:"versionId"`
 		UpdatedTime string    `json:"updatedTime"`
@@ -149,6 +149,9 @@ func runProjectionWith(cs *projCase, origin interface{}) (projOut, error) {
 			for j, p := range k.Purposes {
 				ps[j] = p
 			}
+			if i%2 == 1 && len(ps) < 5 {
+				ps = append(ps, ps[0]) // a purpose listed twice names the relationship once
+			}
 			e["purposes"] = ps
 		}
 		if k.Material == "jwk" {
@@ -182,8 +185,11 @@ func runProjectionWith(cs *projCase, origin interface{}) (projOut, error) {
 		return projOut{}, err
 	}
 	rm := &protocol.ResolutionModel{Doc: internal, CreatedTime: 1700000000, Deactivated: cs.C.Deactivated}
-	if cs.C.Commitments {
-		rm.UpdateCommitment, rm.RecoveryCommitment = "uc-commitment", "rc-commitment"
+	if cs.C.Commitments == "both" || cs.C.Commitments == "ucOnly" {
+		rm.UpdateCommitment = "uc-commitment"
+	}
+	if cs.C.Commitments == "both" || cs.C.Commitments == "rcOnly" {
+		rm.RecoveryCommitment = "rc-commitment"
 	}
 	if cs.C.Origin {
 		rm.AnchorOrigin = origin
@@ -430,6 +436,27 @@ func C19(c *ev.Ctx) {
 	c.Cov.Evaluations = int64(len(cases))
 	c.Cov.DistinctNontrivial = nt
 	c.Cov.Exhaustive = true
+	// keys that delta validation accepts although their JWK is not an Ed25519 key: "for every resolved state" includes
+	// states holding such a key, and the document must still be produced (with the same key material)
+	for _, ty := range []string{"Ed25519VerificationKey2018", "Ed25519VerificationKey2020"} {
+		for name, jwk := range map[string]string{
+			"ec-jwk":  `{"kty":"EC","crv":"P-256","x":"PUymIqdtF_qxaAqPABSw-C-owT1KYYQbsMKFM-L9fJA","y":"nM84jDHCMOTGTh_ZdHq4dBBdo4Z5PkEOW9jA8z8IsGc"}`,
+			"short-x": `{"kty":"OKP","crv":"Ed25519","x":"AQID"}`,
+		} {
+			raw := fmt.Sprintf(`{"publicKey":[{"id":"key1","type":%q,"purposes":["authentication"],"publicKeyJwk":%s}]}`, ty, jwk)
+			internal, err := document.FromBytes([]byte(raw))
+			if err != nil {
+				ev.Fatal("document: %v", err)
+			}
+			rm := &protocol.ResolutionModel{Doc: internal, CreatedTime: 1700000000}
+			info := dochandler.GetTransformationInfoForUnpublished("did:sidetree", "", "", projSuffix, "")
+			c.Cov.Evaluations++
+			if _, terr := didtransformer.New().TransformDocument(rm, info); terr != nil {
+				c.Violation("projection:ed25519-typed-key-with-other-jwk-cannot-be-transformed", map[string]interface{}{"key_type": ty, "jwk": name, "document": raw, "error": terr.Error(),
+					"note": "patch validation accepts this key (it only requires kty, crv and x to be present), so the state is reachable; resolution of the DID then fails"})
+			}
+		}
+	}
 	c.Cov.Rule = "three sub-products enumerated by TLC: (keys) every sequence of <= MaxKeys internal keys over 6 key types x 5 purpose sets x {JWK, base58} x base context x method context; (services) 0-2 services x 0-2 aliases x options; (metadata) options x published x deactivated x commitments x anchor origin (realised as string, list, object, number, empty string, boolean) x version id x updated time; the real DID transformer output (with the real transformation-info helpers of the document handler) is abstracted and compared with Project(c): verification methods (id form, type, controller, material re-encoding checked against an independent base58), the five relationship sections, contexts and their order, service ids and carried-over members, aliases, absence of the internal publicKey member, every metadata field and its value. Non-trivial: >= 1 key."
 	c.Finish("model_checking")
 }
